@@ -106,8 +106,14 @@ pub struct Cx {
     pub strict: bool,
     /// known-finding exclusions that are switched OFF (ids), i.e. search inside known defects
     pub no_exclude: Vec<String>,
+    /// generate and render only, do not run the code under test (used to describe a case
+    /// that kills the process)
+    pub dry: bool,
 }
 impl Cx {
+    pub fn with_render(&self, render: bool) -> Cx {
+        Cx { tier: self.tier, seed: self.seed, render, strict: self.strict, no_exclude: self.no_exclude.clone(), dry: self.dry }
+    }
     pub fn excluded(&self, finding: &str) -> bool {
         !self.no_exclude.iter().any(|x| x == finding || x == "all")
     }
